@@ -326,23 +326,30 @@ func (b *ReadWrite) AllKeysChan(ctx context.Context) (<-chan cid.Cid, error) {
 		return nil, errClosed
 	}
 
+	// Snapshot the keys while holding the lock: the index must not be walked
+	// concurrently with Put, and the lock is released when this call returns.
+	var keys []cid.Cid
+	if err := b.idx.ForEachCid(func(c cid.Cid, _ uint64) error {
+		if !b.opts.BlockstoreUseWholeCIDs {
+			c = cid.NewCidV1(cid.Raw, c.Hash())
+		}
+		keys = append(keys, c)
+		return nil
+	}); err != nil {
+		return nil, err
+	}
+
 	out := make(chan cid.Cid)
 
 	go func() {
 		defer close(out)
-		err := b.idx.ForEachCid(func(c cid.Cid, _ uint64) error {
-			if !b.opts.BlockstoreUseWholeCIDs {
-				c = cid.NewCidV1(cid.Raw, c.Hash())
-			}
+		for _, c := range keys {
 			select {
 			case out <- c:
 			case <-ctx.Done():
-				return ctx.Err()
+				maybeReportError(ctx, ctx.Err())
+				return
 			}
-			return nil
-		})
-		if err != nil {
-			maybeReportError(ctx, err)
 		}
 	}()
 
